@@ -163,7 +163,7 @@ def reasons_to_run(tr, t, before_files, stamped, _visiting=None):
 
 def check_history(line, real, want):
     """want: set of oracle names. Returns list of failures (dicts)."""
-    steps = [t for t in e2e.parse_history(line) if t[0] != "P"]
+    steps = [t for t in e2e.parse_history(line) if t[0] not in ("P", "H")]
     tr = Tracker()
     fails = []
     last_build = None          # (step index, targets, rc, had edits since)
@@ -202,7 +202,7 @@ def check_history(line, real, want):
             for n in trace:
                 rl = tr.rule_for(n)
                 content = tuple(tr.files.get(n, ["<absent>"]))
-                if rl and tr.scripts[rl]["stamp"] and dones.get(n) == 0:
+                if rl and tr.scripts[rl]["stamp"] and tr.scripts[rl]["out"] in ("S", "3") and dones.get(n) == 0:
                     if tr.prev_csum.get(n) != content:
                         tr.bump(n)
                         tr.prev_csum[n] = content
